@@ -406,6 +406,8 @@ pub fn run(ctx: &Ctx, rep: &mut Report) {
         "the client is always given an explicit CA file (system roots, native-tls and ACME are outside the statement)".into(),
         "DNS names are compared case-insensitively (RFC 4343), so a SAN in different letter case counts as a match".into(),
     ];
+    let _ = system_ca();
+    ctx.enumerate(rep, "unusable-ca-bundle", 10, 10, |i| BadBundleCase { kind: (i % 5) as u8, server_side: i >= 5 }, check_bad_bundle);
     let algs = 3u64;
     ctx.enumerate(
         rep,
@@ -471,6 +473,117 @@ pub fn run(ctx: &Ctx, rep: &mut Report) {
     ctx.enumerate(rep, "reload-via-signal", 2, 2, |i| i as u8, check_signal_reload);
 }
 
+
+// ------------------------------------------------------------------ a CA bundle that yields no usable certificate
+
+/// The "operating system" trust store of this process: one CA generated at start-up and handed to rustls-native-certs through
+/// SSL_CERT_FILE. No listed configuration may ever fall back to it: "the roots the client was given" / "that CA" are the files
+/// named on the command line, also when such a file turns out to contain nothing usable.
+struct SystemCa {
+    ca: Ca,
+    _files: Files,
+}
+fn system_ca() -> &'static SystemCa {
+    static S: OnceLock<SystemCa> = OnceLock::new();
+    S.get_or_init(|| {
+        let files = Files::new();
+        let ca = make_ca("pretend system root", 0);
+        let path = files.write("system-roots.pem", &ca.pem);
+        // (set before any TLS configuration is built in this process)
+        unsafe { std::env::set_var("SSL_CERT_FILE", &path) };
+        unsafe { std::env::remove_var("SSL_CERT_DIR") };
+        SystemCa { ca, _files: files }
+    })
+}
+
+#[derive(Clone, Debug, Hash, PartialEq, Eq, Serialize, Deserialize)]
+pub struct BadBundleCase {
+    /// 0 empty file, 1 DER instead of PEM, 2 PEM holding only a private key, 3 truncated PEM, 4 PEM whose body is not a certificate
+    pub kind: u8,
+    /// false: the client's --tls-ca is the unusable file; true: the server's client CA is
+    pub server_side: bool,
+}
+
+pub fn check_bad_bundle(c: &BadBundleCase) -> Outcome {
+    let sys = system_ca();
+    let files = Files::new();
+    let some_ca = make_ca("some ca", 0);
+    let bundle: Vec<u8> = match c.kind {
+        0 => vec![],
+        1 => rustls_pemfile_der(&some_ca.pem),
+        2 => some_ca.key.serialize_pem().into_bytes(),
+        3 => some_ca.pem.as_bytes()[..some_ca.pem.len() / 2].to_vec(),
+        _ => b"-----BEGIN CERTIFICATE-----\nTm90IGEgY2VydGlmaWNhdGUgYXQgYWxsLCBqdXN0IGJhc2U2NCB0ZXh0Lg==\n-----END CERTIFICATE-----\n".to_vec(),
+    };
+    let bad_path = {
+        let p = files.dir.path().join("unusable-ca.pem");
+        std::fs::write(&p, &bundle).expect("write");
+        p.to_str().unwrap().to_string()
+    };
+    let kind = ["empty", "der-not-pem", "only-a-key", "truncated-pem", "not-a-certificate"][c.kind as usize % 5];
+    let r: Result<(), (String, String)> = rt().block_on(async {
+        if !c.server_side {
+            // server certificate under the pretend system root; the client was given the unusable bundle as its roots
+            let leaf = make_leaf(&["server.test".into()], "leaf", Some(&sys.ca), 0, false);
+            let (cp, kp) = (files.write("s.pem", &leaf.0), files.write("s.key", &leaf.1));
+            let cfg = tls::make_server_config(&cp, &kp, None).await.map_err(|e| ("c17-harness".to_string(), format!("server config: {e}")))?;
+            let hs = handshake(Arc::new(cfg), "server.test", None, None, Some(&bad_path), false).await;
+            if hs.client_ok {
+                return Err((format!("c17-unusable-bundle:client:{kind}"), format!("the client was given a --tls-ca file without any usable certificate ({kind}); it nevertheless accepted a server whose certificate chains to the operating system's trust store")));
+            }
+        } else {
+            let trusted = make_ca("trusted", 0);
+            let leaf = make_leaf(&["server.test".into()], "leaf", Some(&trusted), 0, false);
+            let (cp, kp, tp) = (files.write("s.pem", &leaf.0), files.write("s.key", &leaf.1), files.write("t.pem", &trusted.pem));
+            match tls::make_server_config(&cp, &kp, Some(&bad_path)).await {
+                Err(_) => {} // refusing to start is fine
+                Ok(cfg) => {
+                    let cl = make_leaf(&["client.test".into()], "client", Some(&sys.ca), 0, true);
+                    let (ccp, ckp) = (files.write("c.pem", &cl.0), files.write("c.key", &cl.1));
+                    let hs = handshake(Arc::new(cfg), "server.test", Some(&ccp), Some(&ckp), Some(&tp), false).await;
+                    if hs.client_ok && hs.server_ok {
+                        return Err((format!("c17-unusable-bundle:server:{kind}"), format!("the server was given a client-CA file without any usable certificate ({kind}); it nevertheless completed the handshake with a client whose certificate chains to the operating system's trust store")));
+                    }
+                    // and without a certificate nobody gets in either
+                    let hs = handshake(Arc::new(tls::make_server_config(&cp, &kp, Some(&bad_path)).await.unwrap()), "server.test", None, None, Some(&tp), false).await;
+                    if hs.client_ok && hs.server_ok {
+                        return Err((format!("c17-unusable-bundle:server-no-cert:{kind}"), "a server configured with a client-CA file completed the handshake with a client that presented no certificate".to_string()));
+                    }
+                }
+            }
+        }
+        Ok(())
+    });
+    match r {
+        Err((sig, msg)) if sig == "c17-harness" => Outcome::inconclusive(msg),
+        Err((sig, msg)) => Outcome::violation(sig, msg),
+        Ok(()) => Outcome::pass(true, vec!["unusable-ca-bundle"]),
+    }
+}
+
+/// first certificate of a PEM text as DER bytes
+fn rustls_pemfile_der(pem: &str) -> Vec<u8> {
+    let mut out = vec![];
+    let (mut acc, mut bits) = (0u32, 0u32);
+    for ch in pem.lines().filter(|l| !l.starts_with("-----")).flat_map(|l| l.bytes()) {
+        let v = match ch {
+            b'A'..=b'Z' => ch - b'A',
+            b'a'..=b'z' => ch - b'a' + 26,
+            b'0'..=b'9' => ch - b'0' + 52,
+            b'+' => 62,
+            b'/' => 63,
+            _ => continue,
+        } as u32;
+        acc = (acc << 6) | v;
+        bits += 6;
+        if bits >= 8 {
+            bits -= 8;
+            out.push((acc >> bits) as u8);
+            acc &= (1 << bits) - 1;
+        }
+    }
+    out
+}
 
 // ------------------------------------------------------------------ which name does the real client ask for?
 
